@@ -61,7 +61,33 @@ Definition no_side : sside :=
 (* NA1, per row and side x (y = the other side of the same row, ox / oy = the provider objects the two oids
    name, disc = the row is marked discarded): a sync mark on x is reflected by x's own object and by the
    peer object (now or at some earlier time: a user may have changed the object since) *)
+(* the predicate of the property: a mark on x must be reflected by the peer "unless a user changed the object since":
+   when x's own object no longer has the marked content / path, the mark claims nothing about the peer any more (the
+   real engine records the hash it last KNEW for the side it read from, which a user write may already have outdated) *)
+Definition now_hash (o : obj) (h : cnt) : bool :=
+  match os_kind (o_now o) with KFile c => N.eqb c h | KDir => false end.
 Definition na_side (x y : sside) (ox oy : option obj) (disc : bool) : bool :=
+  if negb (s_has x) then true else
+  match ox with
+  | None => match s_shash x, s_spath x with None, None => true | _, _ => false end
+  | Some o =>
+    match s_shash x with
+    | None => true
+    | Some h => had_hash o h &&
+                (if s_has y then negb (now_hash o h) || match oy with Some o' => had_hash o' h | None => false end else disc)
+    end &&
+    match s_spath x with
+    | None => true
+    | Some p => had_path o p &&
+                (if s_has y then negb (N.eqb (os_path (o_now o)) p) || match oy with Some o' => had_path o' p | None => false end
+                 else true)
+    end
+  end.
+Definition na_row (x y : sside) (ox oy : option obj) (disc : bool) : bool :=
+  na_side x y ox oy disc && na_side y x oy ox disc.
+
+(* the strict form (no "unless"): what the model's own discipline maintains, and what implies the predicate above *)
+Definition na_side_s (x y : sside) (ox oy : option obj) (disc : bool) : bool :=
   if negb (s_has x) then true else
   match ox with
   | None => match s_shash x, s_spath x with None, None => true | _, _ => false end
@@ -77,8 +103,8 @@ Definition na_side (x y : sside) (ox oy : option obj) (disc : bool) : bool :=
                 (if s_has y then match oy with Some o' => had_path o' p | None => false end else true)
     end
   end.
-Definition na_row (x y : sside) (ox oy : option obj) (disc : bool) : bool :=
-  na_side x y ox oy disc && na_side y x oy ox disc.
+Definition na_row_s (x y : sside) (ox oy : option obj) (disc : bool) : bool :=
+  na_side_s x y ox oy disc && na_side_s y x oy ox disc.
 
 (* NA2, per provider object: an object whose latest event the stored cursor already covers is accounted for
    by a stored row: the row carries the change mark, or describes the object as it is now.
